@@ -135,13 +135,15 @@ def main():
         ctx.run_tlc("EQLCore", "EQLCore_mc_access.cfg", expect="ok", seed=ctx.seed + 1)
     ctx.run_tlc("EQLCore", "EQLCore_sw_NegUnionFlipsEach.cfg", expect="violation")
     ctx.run_tlc("EQLCore", "EQLCore_sw_OperandTruthFilter.cfg", expect="violation")
+    ctx.run_tlc("EQLCore", "EQLCore_sw_NegNestedUnionFlips.cfg", expect="violation", seed=1)
+    if thorough:
+        ctx.run_tlc("EQLCore", "EQLCore_mc_logic_d3.cfg", expect="ok", seed=ctx.seed + 1)
     fams = [("logic", "EQLCore_gen_logic.cfg", 3000), ("logic6", "EQLCore_gen_logic6.cfg" if thorough else "EQLCore_gen_logic6_q.cfg", 400),
             ("access", "EQLCore_gen_access.cfg" if thorough else "EQLCore_gen_access_q.cfg", 400)]
     fams.append(("quant", "EQLCore_gen_quant.cfg" if thorough else "EQLCore_gen_quant_q.cfg", 400))
     fams.append(("quant", "EQLCore_gen_quant_d1.cfg", 100))          # every quantifier condition of depth 1
     fams.append(("poset", "EQLCore_gen_poset.cfg" if thorough else "EQLCore_gen_poset_q.cfg", 350))
-    if thorough:
-        fams.append(("logic_d3", "EQLCore_gen_logic_d3.cfg", 2000))
+    fams.append(("logic_d3", "EQLCore_gen_logic_d3.cfg" if thorough else "EQLCore_gen_logic_d3_q.cfg", 2000 if thorough else 250))
     cases = []
     for fam, cfg, minimum in fams:
         for i, c in enumerate(conditions(ctx, cfg, minimum)):
